@@ -286,7 +286,22 @@ class Explorer:
         if r == z3.unknown:
             self.incomplete.append(f"solver unknown on obligation {label}")
             raise Inconclusive(f"unknown: {label}")
-        inputs = self.model_inputs(self.solver.model())
+        model = self.solver.model()
+        # prefer a counterexample with non-degenerate inputs (all-zero models often make an uninterpreted function
+        # agree by accident and then do not replay); purely a heuristic choice among the satisfying models
+        ints = [v for v in self.inputs.values() if z3.is_int(v)]
+        if ints:
+            div = [v != 0 for v in ints] + [a != b for a, b in zip(ints, ints[1:])]
+            self.solver.push()
+            try:
+                self.solver.add(z3.Not(c), *div)
+                self.solver.set("timeout", 3000)
+                if self._query() == z3.sat:
+                    model = self.solver.model()
+            finally:
+                self.solver.set("timeout", self.query_timeout_ms)
+                self.solver.pop()
+        inputs = self.model_inputs(model)
         raise Violation(label, inputs, detail)
 
     def fail(self, label, detail=""):
